@@ -893,8 +893,9 @@ theorem mergeDirName_ne (d : String) : d ≠ mergeDirName d := by
   have h6 : "-merge".length = 6 := by decide
   omega
 
-theorem scan_empty (fid : Nat) : scan C fid ByteArray.empty = { recs := [], validEnd := 0, ok := true } := by
-  have := scan_build C fid [] (by simp)
+theorem scan_empty (tol : Bool) (fid : Nat) :
+    scan C tol fid ByteArray.empty = { recs := [], validEnd := 0, ok := true } := by
+  have := scan_build C tol fid [] (by simp)
   simpa [appendAll, posAll] using this
 
 /-- `Open` on a directory that does not exist yet (empty world) -/
@@ -906,7 +907,7 @@ theorem openDB_fresh (dir : String) (cfg : Cfg) (h : cfg.fileSize > 0) :
   have hne := mergeDirName_ne dir
   have hadopt : adopt [(dir, DirSt.empty)] dir = ([(dir, DirSt.empty)], 0) := by
     simp [adopt, World.get, hne]
-  have hload : loadFile { index := [], reclaim := 0, total := 0, pending := [] } 0 ⟨ByteArray.empty, 0⟩
+  have hload : loadFile { index := [], reclaim := 0, total := 0, pending := [] } 0 ⟨ByteArray.empty, 0⟩ true
       = some ({ index := [], reclaim := 0, total := 0, pending := [] }, ⟨ByteArray.empty, 0⟩) := by
     simp [loadFile, scan_empty]
   simp [openDB, St.init, World.get, World.set, hadopt, loadIndex, hload,
